@@ -254,6 +254,11 @@ class SStr:
             return False  # whole string is the literal `lead`, shorter than prefix
         nxt = self.pieces[rest_idx]
         need = prefix[len(lead)]
+        if isinstance(nxt, Atom) and not nxt.nonempty and nxt.has_first(need) is False:
+            # possibly empty atom that cannot supply the next character: decided by what follows it
+            rest = SStr((lead,) + self.pieces[rest_idx + 1 :])
+            if not rest.startswith(prefix):
+                return False
         if isinstance(nxt, Atom) and nxt.nonempty:
             if nxt.has_first(need) is False:
                 return False
@@ -283,6 +288,10 @@ class SStr:
             return False
         prv = self.pieces[rest_idx - 1]
         need = suffix[len(suffix) - len(tail) - 1]
+        if isinstance(prv, Atom) and not prv.nonempty and prv.has_last(need) is False:
+            rest = SStr(self.pieces[: rest_idx - 1] + (tail,))
+            if not rest.endswith(suffix):
+                return False
         if isinstance(prv, Atom) and prv.nonempty:
             if prv.has_last(need) is False:
                 return False
